@@ -70,6 +70,36 @@ pub async fn finish(sim: &mut Sim, idle_ms: u64) {
     sim.obs_all_peers();
 }
 
+/// A connection that is lost without a word: a connected pair is cut off completely for longer
+/// than anybody's idle timeout; each side must have reported the other lost by the end.
+pub async fn silent_loss_probe(sim: &mut Sim, max_idle: u64) {
+    sim.run.fabric.heal_all();
+    sim.run.fabric.set_policy(Policy::default());
+    sim.run.obs(-1, "obs.fault", json!({"what": "healed"}));
+    settle(sim, 300).await;
+    let n = sim.nodes.len();
+    let mut pair = None;
+    for a in 0..n {
+        for b in 0..n {
+            if a != b && sim.nodes[a].net.is_some() && sim.nodes[b].net.is_some()
+                && sim.net(a).peers().contains(&sim.peer_id(b)) && sim.net(b).peers().contains(&sim.peer_id(a)) {
+                pair = Some((a, b));
+            }
+        }
+    }
+    let Some((a, b)) = pair else { return };
+    sim.run.fabric.partition(sim.addr(a), sim.addr(b));
+    sim.run.obs(-1, "obs.fault", json!({"a": a, "b": b, "what": "silent"}));
+    let since = sim.run.now_ms();
+    settle(sim, max_idle + 1_500 + 2_500).await;
+    sim.drain_events();
+    let a_lists_b = sim.net(a).peers().contains(&sim.peer_id(b));
+    let b_lists_a = sim.net(b).peers().contains(&sim.peer_id(a));
+    sim.run.obs(a as i64, "obs.silent_end", json!({"other": b, "since": since, "listed": a_lists_b}));
+    sim.run.obs(b as i64, "obs.silent_end", json!({"other": a, "since": since, "listed": b_lists_a}));
+    sim.run.fabric.heal_all();
+}
+
 pub async fn shutdown(sim: &mut Sim, i: usize) {
     if let Some(net) = sim.nodes[i].net.clone() {
         let r = tokio::time::timeout(std::time::Duration::from_secs(120), net.shutdown()).await;
@@ -103,15 +133,21 @@ pub fn node_cfg(key: [u8; 32], o: &Opts) -> NodeCfg {
 pub async fn history(mut sim: Sim, o: Opts) -> Result<Value, String> {
     let keys = sim::sorted_keys(o.nodes, &mut sim.rng);
     let mut max_idle = o.idle_ms;
+    let all_unset = o.hetero && sim.rng.gen_bool(0.2);
     for k in keys {
         let mut cfg = node_cfg(k, &o);
         if o.hetero {
-            let idle = [4_000u64, 10_000, 25_000][sim.rng.gen_range(0..3)];
+            // in one run out of five nobody configures an idle timeout (30 s applies)
+            let idle = if all_unset { None } else { Some([4_000u64, 10_000, 25_000][sim.rng.gen_range(0..3)]) };
             // keep-alives, where used, are shorter than every node's idle timeout
             let ka = if sim.rng.gen_bool(0.5) { Some(1_500u64) } else { None };
-            quic(&mut cfg.config).max_idle_timeout_ms = Some(idle);
+            quic(&mut cfg.config).max_idle_timeout_ms = idle;
             quic(&mut cfg.config).keep_alive_interval_ms = ka;
-            max_idle = max_idle.max(idle);
+            // some nodes also accept an alternate network name (a different server configuration)
+            if sim.rng.gen_bool(0.4) {
+                cfg.alt = Some("net-alt".into());
+            }
+            max_idle = max_idle.max(idle.unwrap_or(30_000));
         }
         let i = sim.add_node(cfg).map_err(|e| e.to_string())?;
         sim.run.obs(i as i64, "obs.note", json!({"idle_ms": o.idle_ms}));
@@ -256,6 +292,9 @@ pub async fn history(mut sim: Sim, o: Opts) -> Result<Value, String> {
     }
     for h in pending {
         let _ = tokio::time::timeout(std::time::Duration::from_secs(300), h).await;
+    }
+    if o.faults {
+        silent_loss_probe(&mut sim, max_idle).await;
     }
     finish(&mut sim, max_idle).await;
     Ok(json!({"connects": connects}))
